@@ -143,12 +143,28 @@ Theorem C18_refcount_wrong_when_not_held_refuted :
               is_pending_row (c_db (srun wt_new ops)) 2 7 = false.
 Proof. exists ex_unheld. vm_compute. repeat split; try reflexivity. eexists. split; reflexivity. Qed.
 
-(* the abort that is left (known finding, proof variant of F9): a misbehaviour proof on a (tower, locator)
-   that already has a receipt unwraps a PRIMARY KEY conflict with the mutex held *)
-Example C18_flag_misbehaving_abort_witness :
-  snd (sstep (srun wt_new [SRegister 1 11 100 5 200 901; SReceipt 1 7 99 6 301 401]) (SMisbehaving 1 7 6 302 402 77))
-  = RAbort Site_store_misbehaving_proof_unwrap.
-Proof. vm_compute. reflexivity. Qed.
+(* flag_misbehaving_tower (fix d35e2bc) on the three kinds of history: nothing stored for (tower, locator) / the tower's
+   own receipt already stored for it (used to unwrap a PRIMARY KEY conflict with the mutex held: F9, proof variant) / a
+   proof already stored for the tower (used to unwrap the duplicate proof): never an abort, a proof row afterwards, the
+   first proof kept, the receipt of the proof replaces the tower's receipt, memory = disk *)
+Example C18_flag_misbehaving_branches :
+  let c0 := srun wt_new [SRegister 1 11 100 5 200 901] in
+  let c1 := srun wt_new [SRegister 1 11 100 5 200 901; SReceipt 1 7 99 6 301 401] in
+  let f c l := sstep c (SMisbehaving 1 l 6 302 402 77) in
+  snd (f c0 7) = ROk /\ tbl (c_db (fst (f c0 7))) T_misbehaving_proofs = [[1; 7; 77]]%N /\
+  snd (f c1 7) = ROk /\ tbl (c_db (fst (f c1 7))) T_misbehaving_proofs = [[1; 7; 77]]%N /\
+  tbl (c_db (fst (f c1 7))) T_appointment_receipts = [[7; 1; 6; 302; 402]]%N /\
+  snd (f (fst (f c1 7)) 8) = ROk /\ tbl (c_db (fst (f (fst (f c1 7)) 8))) T_misbehaving_proofs = [[1; 7; 77]]%N /\
+  c_poisoned (fst (f (fst (f c1 7)) 8)) = false /\ mem_eq_diskb (fst (f (fst (f c1 7)) 8)) = true /\
+  wt_reload (fst (f c1 7)) = fst (f c1 7).
+Proof. vm_compute. repeat split; reflexivity. Qed.
+
+(* set_tower_status (fix 70d4134): a misbehaving tower keeps that status *)
+Example C18_misbehaving_status_kept :
+  let c := fst (sstep (srun wt_new [SRegister 1 11 100 5 200 901]) (SMisbehaving 1 7 6 302 402 77)) in
+  map (fun kv => su_status (snd kv)) (c_towers (fst (sstep c (SSetStatus 1 TemporaryUnreachable)))) = [Misbehaving] /\
+  map (fun kv => su_status (snd kv)) (c_towers (fst (sstep c (SSetStatus 1 Reachable)))) = [Misbehaving].
+Proof. vm_compute. split; reflexivity. Qed.
 
 Print Assumptions C18_schema_wf.
 Print Assumptions C18_db_integrity_any_schema.
